@@ -88,3 +88,22 @@ pub fn short_hex(b: &[u8]) -> String {
         format!("{}…{} ({} bytes)", hex::encode(&b[..60]), hex::encode(&b[b.len() - 20..]), b.len())
     }
 }
+
+/// Known finding "return-data-truncated-push": after an OP_RETURN opcode the library keeps the lenient
+/// reading of a final *direct* push that declares more bytes than remain (pinned by the repository's
+/// test `scrypt_stateful_contract`). Returns the neutralised bytes (the push opcode replaced by the
+/// number of bytes that are actually there) when `bytes` is exactly such a script.
+pub fn known_lenient_tail(bytes: &[u8]) -> Option<Vec<u8>> {
+    match tok::tokenize(bytes) {
+        Err(tok::TokErr::TruncatedPayload { at, declared, available }) if (1..=75).contains(&bytes[at]) && declared == bytes[at] as u64 => {
+            let prefix = tok::tokenize(&bytes[..at]).ok()?;
+            if !prefix.iter().any(|t| *t == Tok::Op(0x6a)) {
+                return None;
+            }
+            let mut n = bytes.to_vec();
+            n[at] = available as u8;
+            Some(n)
+        }
+        _ => None,
+    }
+}
